@@ -59,9 +59,20 @@ def jobs(tier, seed, prop):
     jc = Job("candman.complete", pre + t2 + tc + cf.text(("harness",), ["h_complete"]), "h_complete", unwind=nc * nd + 2, timeout=600, backends=[[], ["--sat-solver", "cadical"]],
              functions=["%s:%d %s" % (f["file"], f["line"], f["name"]) for f in infoc["functions"]], info=infoc, replay=replay_complete(prop),
              bounded="candidates <= %d, completed points <= %d, dimensions <= %d (full unwinding with unwinding assertions)" % (nc, nc, nd),
-             assumed=["find() returns any slot or 'not a candidate' (find itself is not under contract)", "std::forward_list running_jobs is a ghost list (count); the walk to the matching entry is one ghost call"],
+             assumed=["find() returns any slot or 'not a candidate' (what find itself guarantees is the job candman.find, F16f)", "std::forward_list running_jobs is a ghost list (count); the walk to the matching entry is one ghost call"],
              label="CandidateManager::complete against F16c (counters, status marks, running-job list)")
-    return [jc, Job("candman.next", pre + t + cf.text(("harness",), ["h_next"]), "h_next", unwind=nc * nd + 2, timeout=600,
+    cff = ContractFile("contracts/candman_find.c")
+    Rf = X.Rules()
+    tf, infof = candman.emit_find(Rf, cff.contracts(), cff.loops())
+    Rf.require({"R10-self-call": 2, "R10-member": 6})
+    ncf = 8 if tier == "quick" else 12
+    jf = Job("candman.find", '#include "tsg_shim.h"\nint tsg_exc;\n#define TSG_NC %d\n#line 1 "/verif/contracts/candman_find.c"\n' % ncf + cff.text(("text",)) + tf + cff.text(("harness",), ["h_find"]),
+             "h_find", enforce="CandidateManager_find", replace=["CandidateManager_compare"], loop_contracts=True, timeout=240, backends=[[], ["--sat-solver", "cadical"]],
+             functions=["%s:%d %s" % (f["file"], f["line"], f["name"]) for f in infof["functions"]], info=infof,
+             bounded="capacity of the candidate arrays %d, dimensions <= 2 (the search loop is closed by its loop contract, not unwound)" % ncf,
+             assumed=["`sorted` is a permutation of the candidate slots (established by sort_candidates: std::iota + std::sort, not under contract); only `sorted[k] < num_candidates` is used", "compare() is pure and answers arbitrarily (replaced by its contract; that a found slot matches the point is not stated)"],
+             label="CandidateManager::find against F16f (terminates, in bounds, writes nothing, returns a slot <= num_candidates for every answer of compare)")
+    return [jc, jf, Job("candman.next", pre + t + cf.text(("harness",), ["h_next"]), "h_next", unwind=nc * nd + 2, timeout=600,
                 backends=[[], ["--sat-solver", "cadical"]],
                 functions=["%s:%d %s" % (f["file"], f["line"], f["name"]) for f in info["functions"]], info=info, replay=make_replay(prop),
                 bounded="candidates <= %d, dimensions <= %d (full unwinding with unwinding assertions)" % (nc, nd),
